@@ -167,6 +167,7 @@ def run_case(case, model=None, objs=None):
         cf = cvlib.vscale(vec) / cvlib.vscale(tvec)
         ops.append([v, cvlib.vec_sexp(tvec), bool(is_input), bool(move)])
         eq_before = list(m.equations)
+        units_before = [(x, x.units, x.initial_value, x.cmeta_id) for x in m.variables()]
         try:
             new = m.convert_variable(orig, target, DataDirectionFlow.INPUT if is_input else DataDirectionFlow.OUTPUT,
                                      move_annotations=bool(move))
@@ -180,6 +181,12 @@ def run_case(case, model=None, objs=None):
         if math.isclose(cf, 1.0):
             if new is not orig or len(m.equations) != len(eq_before) or any(a is not b for a, b in zip(m.equations, eq_before)):
                 bad.append(('conversion to equivalent units changed the model', {'conv': j}))
+            now = [(x, x.units, x.initial_value, x.cmeta_id) for x in m.variables()]
+            if len(now) != len(units_before) or any(a[0] is not b[0] or a[1] is not b[1] or a[2] != b[2] or a[3] != b[3]
+                                                    for a, b in zip(now, units_before)):
+                chg = [(b[0].name, str(b[1]), str(a[1])) for a, b in zip(now, units_before) if a[1] is not b[1]]
+                bad.append(('conversion to equivalent units (%s -> %s) changed a variable of the model (units object, initial '
+                            'value or id): %s' % (orig.name, tname, chg[:2]), {'conv': j}))
         else:
             if not m.units.is_equivalent(new.units, target):
                 bad.append(('returned variable is in %s, not in %s' % (new.units, tname), {'conv': j}))
